@@ -278,6 +278,12 @@ func runC18(c *fw.Ctx, idx int) fw.Result {
 			}
 			s[p] = ch
 			rc.Seq = string(s)
+			if (idx/3)%4 == 3 {
+				// a letter outside ASCII, as valid UTF-8: its code point's low byte is an IUPAC letter
+				// (a decoder that ranges over runes and truncates would take it for a base)
+				u := []string{"\u0143", "\u0141", "\u012d", "\u4e41", "\u0147", "\u0154"}[(idx/12)%6]
+				rc.Seq = string(s[:p]) + u + string(s[p+1:])
+			}
 		})
 	case "missing-file":
 		missing = sp.file
